@@ -365,3 +365,101 @@ def sany(module, cwd=SPECS):
                      stdout=subprocess.PIPE, stderr=subprocess.STDOUT, universal_newlines=True)
   ok = p.returncode == 0 and 'error' not in p.stdout.lower().replace('errors: 0', '')
   return ok, p.stdout
+
+
+# ---------------------------------------------------------------- transition cover from the complete state graph
+def graph_behaviours(module, cfg, budget=100000, seed=0, timeout=1800, env=None, workers=8):
+  """Dump the complete state graph of a small configuration (`tlc -dump dot,actionlabels`) and return
+  behaviours that together take every transition (up to `budget` behaviours): each uncovered transition
+  (deepest first) is reached by a shortest path and the walk is then extended along uncovered transitions.
+  Behaviours have the format of simulate_behaviours: [(('Init', []), state), ((action, params), state), ...].
+  Also returns statistics {graph_states, graph_transitions, graph_transitions_covered}."""
+  import collections
+  import random as _random
+  d = tempfile.mkdtemp(prefix='tlcgraph_')
+  try:
+    dot = os.path.join(d, 'g.dot')
+    r = run_tlc(module, cfg, workers=workers, timeout=timeout, env=env, extra=['-dump', 'dot,actionlabels', dot])
+    if not r.ok:
+      raise TLCError('state graph dump failed: %r %r\n%s' % (r.violated, r.error, r.stdout[-2000:]))
+    txt = open(dot).read()
+  finally:
+    shutil.rmtree(d, ignore_errors=True)
+  labels = {}
+  init = []
+  for m in re.finditer(r'^(-?\d+) \[label="((?:[^"\\]|\\.)*)"(,style = filled)?', txt, re.M):
+    labels[m.group(1)] = m.group(2)
+    if m.group(3):
+      init.append(m.group(1))
+  edges = collections.defaultdict(list)
+  for m in re.finditer(r'^(-?\d+) -> (-?\d+) \[label="([^"]*)"', txt, re.M):
+    if m.group(1) != m.group(2) or True:
+      edges[m.group(1)].append((m.group(3), m.group(2)))
+  par, depth = {}, {}
+  dq = collections.deque()
+  for i in sorted(init):
+    depth[i] = 0
+    par[i] = None
+    dq.append(i)
+  while dq:
+    u = dq.popleft()
+    for (a, v) in edges[u]:
+      if v not in depth:
+        depth[v] = depth[u] + 1
+        par[v] = (u, a)
+        dq.append(v)
+  all_e = [(u, a, v) for u in sorted(edges) if u in depth for (a, v) in edges[u]]
+  unc = set(all_e)
+  rng = _random.Random(seed)
+  rng.shuffle(all_e)
+  all_e.sort(key=lambda e: -depth[e[0]])
+  paths = []
+  for e in all_e:
+    if e not in unc:
+      continue
+    if len(paths) >= budget:
+      break
+    pre = []
+    x = e[0]
+    while par[x] is not None:
+      pu, pa = par[x]
+      pre.append((pu, pa, x))
+      x = pu
+    pre.reverse()
+    path = pre + [e]
+    cur = e[2]
+    while True:
+      outs = [(cur, a2, v2) for (a2, v2) in edges[cur] if (cur, a2, v2) in unc and (cur, a2, v2) != e]
+      if not outs:
+        break
+      nxt = rng.choice(outs)
+      path.append(nxt)
+      unc.discard(nxt)
+      cur = nxt[2]
+    for pe in path:
+      unc.discard(pe)
+    paths.append(path)
+  cache = {}
+
+  def state(nid):
+    if nid not in cache:
+      s = labels[nid].replace('\\n', '\n').replace('\\"', '"').replace('\\\\', '\\')
+      st = {}
+      for m in re.finditer(r'(?:^|\n)/\\ (\w+) = ((?:.|\n)*?)(?=\n/\\ \w+ = |\Z)', s):
+        try:
+          st[m.group(1)] = parse_tla(m.group(2).strip())
+        except Exception:
+          st[m.group(1)] = m.group(2).strip()
+      cache[nid] = st
+    return cache[nid]
+
+  behs = []
+  for path in paths:
+    b = [(('Init', []), state(path[0][0]))]
+    for (u, a, v) in path:
+      m = re.match(r'(\w+)(?:\((.*)\))?$', a)
+      params = parse_tla('<<' + m.group(2) + '>>') if m and m.group(2) else []
+      b.append(((m.group(1) if m else a, params), state(v)))
+    behs.append(b)
+  return behs, {'graph_states': len(labels), 'graph_transitions': len(all_e),
+                'graph_transitions_covered': len(all_e) - len(unc)}
